@@ -19,6 +19,7 @@ package c06
 import (
 	"bytes"
 	"fmt"
+	"math/big"
 	"strings"
 
 	"verif/build"
@@ -32,7 +33,9 @@ import (
 	"github.com/youchainhq/go-youchain/core/state"
 	"github.com/youchainhq/go-youchain/core/types"
 	"github.com/youchainhq/go-youchain/local"
+	"github.com/youchainhq/go-youchain/params"
 	"github.com/youchainhq/go-youchain/rlp"
+	"github.com/youchainhq/go-youchain/staking"
 )
 
 func init() {
@@ -42,6 +45,9 @@ func init() {
 
 func runChains(c *kit.Ctx) {
 	n := c.N(32, 640)
+	if c.Mode == "race" {
+		n = c.N(8, 96)
+	}
 	for i := 0; i < n; i++ {
 		id := fmt.Sprintf("ch%d", i)
 		if !c.Mine(i, id) {
@@ -53,7 +59,7 @@ func runChains(c *kit.Ctx) {
 			blocks = 400 + 16*r.Intn(13)
 		}
 		sc := chaingen.PickScenario(r, blocks)
-		c.Begin(id, map[string]interface{}{"scenario": sc.Name, "blocks": sc.Blocks, "pool": sc.Pool.String(), "evidence": sc.Evidence, "busy": sc.Busy})
+		c.Begin(id, map[string]interface{}{"scenario": sc.Name, "blocks": sc.Blocks, "pool": sc.Pool.String(), "evidence": sc.Evidence, "busy": sc.Busy, "negrecord": sc.NegRecord, "reckless_evidence": sc.RecklessEvidence})
 		run, err := chaingen.NewRun(c, id, r, sc)
 		if err != nil {
 			c.EndInconclusive("setup: " + err.Error())
@@ -197,7 +203,7 @@ func (m *Monitor) Built(r *chaingen.Run, b *chaingen.BlockCtx) bool {
 			if d := built.diff(fp); d != "" {
 				extra := map[string]interface{}{"built": built.describe(), "reexecuted": fp.describe()}
 				class := "builder-vs-reexecution:" + d
-				if c := evidenceClass(r, b, extra); c != "" {
+				if c := chaingen.EvidenceClass(r, b, extra); c != "" {
 					class = c
 				} else {
 					extra["state_diff"] = firstN(mon.Diff(stkOf(b.Res.State), stkOf(st)), 12)
@@ -235,7 +241,7 @@ func (m *Monitor) Imported(r *chaingen.Run, b *chaingen.BlockCtx) bool {
 	if b.ImportErr != nil {
 		class := "import-rejected:" + chaingen.Normalise(b.ImportErr.Error())
 		extra := map[string]interface{}{}
-		if c := evidenceClass(r, b, extra); c != "" {
+		if c := chaingen.EvidenceClass(r, b, extra); c != "" {
 			class = c
 		}
 		r.Violation(class, fmt.Sprintf("block %d built by the builder path is rejected by InsertChain of an independent node: %v", b.N, b.ImportErr), r.Witness(b, extra))
@@ -326,20 +332,28 @@ func (m *Monitor) Finish(r *chaingen.Run) {
 	r.C.Count("third_node_chains", 1)
 }
 
-// ---------------------------------------------------------------- zero-penalty double sign
+// ---------------------------------------------------------------- scripted mini-chains
 
-// runZeroSlash: genesis of three validators, one transaction (block 1) creating a House validator
-// with a self stake of a few LU, empty blocks, and one double-sign evidence against that validator
-// once it is part of the look-back set.
+// runZeroSlash holds the minimal reproductions of the anticipated divergences (the workload name is
+// historical). Every case is a genesis preset, a handful of scripted transactions and empty blocks:
+//
+//	zs<even>  a House validator is created with a self stake of 1..49 LU (2 % of it rounds to zero); once
+//	          it is in the look-back set a double-sign evidence against it is handed to the builder
+//	zs<odd>   the same with 50..99 LU: the penalty is 1 LU, the stake is 0
+//	ng<i>     a House genesis validator accepts delegations, a user delegates 100 YOU, then in one period
+//	          the operator withdraws all but 10 YOU of the self token and the user unbinds 100 YOU
 func runZeroSlash(c *kit.Ctx) {
-	n := c.N(2, 8)
+	n := c.N(4, 16)
 	for i := 0; i < n; i++ {
 		id := fmt.Sprintf("zs%d", i)
+		if i >= n/2 {
+			id = fmt.Sprintf("ng%d", i-n/2)
+		}
 		if !c.Mine(i, id) {
 			continue
 		}
 		r := c.Rand(id)
-		sc := chaingen.PickScenario(r, 48)
+		sc := chaingen.PickScenario(r, 56)
 		sc.Evidence = false
 		c.Begin(id, map[string]interface{}{"scenario": sc.Name})
 		run, err := chaingen.NewRun(c, id, r, sc)
@@ -347,47 +361,69 @@ func runZeroSlash(c *kit.Ctx) {
 			c.EndInconclusive("setup: " + err.Error())
 			continue
 		}
-		var tiny common.Address
-		evAt := uint64(34 + r.Intn(10))
-		run.Script = func(run *chaingen.Run, st *state.StateDB, n uint64) ([]chaingen.TxInfo, bool) {
-			if n == 1 {
-				ti, main := run.W.TinyCreate(st, int64(1+r.Intn(49)))
-				tiny = main
-				return []chaingen.TxInfo{ti}, true
-			}
-			return nil, true
+		if i < n/2 {
+			scriptZeroSlash(run, i%2 == 1)
+		} else {
+			scriptNegativeRecord(run)
 		}
-		run.EvidenceTargets = func(run *chaingen.Run, st *state.StateDB, n uint64) []common.Address {
-			if n == evAt && st.GetValidatorByMainAddr(tiny) != nil {
-				return []common.Address{tiny}
-			}
-			return nil
-		}
-		sig := run.Execute(&Monitor{Reps: 2}, chaingen.InvMonitor{})
+		sig := run.Execute(&Monitor{Reps: 3}, chaingen.InvMonitor{})
 		run.Close()
-		c.End("zeroslash " + sig)
+		c.End("scripted " + id[:2] + " " + sig)
 	}
 }
 
-// evidenceClass recognises, by observation, the one anticipated cause of a builder/importer
-// divergence: evidence was handed to the builder, the builder changed the accused validator's record,
-// but the header carries no SlashData for an importer to replay.
-func evidenceClass(r *chaingen.Run, b *chaingen.BlockCtx, extra map[string]interface{}) string {
-	if len(b.EvidenceVals) == 0 || len(b.Block.Header().SlashData) != 0 {
-		return ""
+func scriptZeroSlash(run *chaingen.Run, oneLU bool) {
+	var tiny common.Address
+	r := run.R
+	lu := int64(1 + r.Intn(49))
+	if oneLU {
+		lu = int64(50 + r.Intn(50))
 	}
-	pst, err := r.A.Chain.StateAt(b.Parent.Root(), b.Parent.ValRoot(), b.Parent.Header().StakingRoot)
-	if err != nil {
-		return ""
+	evAt := uint64(34 + r.Intn(10))
+	run.Script = func(run *chaingen.Run, st *state.StateDB, n uint64) ([]chaingen.TxInfo, bool) {
+		if n == 1 {
+			ti, main := run.W.TinyCreate(st, lu)
+			tiny = main
+			return []chaingen.TxInfo{ti}, true
+		}
+		return nil, true
 	}
-	for _, t := range b.EvidenceVals {
-		before, after := pst.GetValidatorByMainAddr(t), b.Res.State.GetValidatorByMainAddr(t)
-		if before != nil && after != nil && (before.Expelled != after.Expelled || before.ExpelExpired != after.ExpelExpired || before.Status != after.Status) {
-			extra["accused_before"] = mon.ValString(before)
-			extra["accused_after_on_builder"] = mon.ValString(after)
-			extra["header_slashdata"] = "empty"
-			return "evidence-applied-by-builder-but-absent-from-slashdata"
+	run.EvidenceTargets = func(run *chaingen.Run, st *state.StateDB, n uint64) []common.Address {
+		if n == evAt && st.GetValidatorByMainAddr(tiny) != nil {
+			return []common.Address{tiny}
+		}
+		return nil
+	}
+}
+
+func scriptNegativeRecord(run *chaingen.Run) {
+	w := run.W
+	// a House validator of the genesis and its operator
+	hv := -1
+	for i, v := range run.Sc.Vals {
+		if v.Role == params.RoleHouse && v.Status == params.ValidatorOnline {
+			hv = i
 		}
 	}
-	return ""
+	main := w.VA(hv)
+	delegator := 9
+	run.Script = func(run *chaingen.Run, st *state.StateDB, n uint64) ([]chaingen.TxInfo, bool) {
+		w.BeginScript(st)
+		v := st.GetValidatorByMainAddr(main)
+		switch n {
+		case 1:
+			return []chaingen.TxInfo{w.StakingTx(hv, staking.ValidatorUpdate, &staking.TxUpdateValidator{MainAddress: main, CommissionRate: 0xffff, RiskObligation: 0xffff, AcceptDelegation: 1}, "stk.update", nil)}, true
+		case 17:
+			val := env.YOU(100)
+			return []chaingen.TxInfo{w.StakingTx(delegator, staking.DelegationAdd, &staking.TxDelegation{Validator: main, Value: val}, "stk.dlgadd", val)}, true
+		case 33:
+			// operator: withdraw all but 10 YOU of the self token -> validator-total pending record = 10 YOU
+			keep := env.YOU(10)
+			return []chaingen.TxInfo{w.StakingTx(hv, staking.ValidatorWithDraw, &staking.TxValidatorWithdraw{MainAddress: main, Recipient: w.UA(hv), Value: new(big.Int).Sub(v.SelfToken, keep)}, "stk.withdraw", nil)}, true
+		case 35:
+			// delegator: unbind 100 YOU -> record = 10 - 100 YOU
+			return []chaingen.TxInfo{w.StakingTx(delegator, staking.DelegationSub, &staking.TxDelegation{Validator: main, Value: env.YOU(100)}, "stk.dlgsub", nil)}, true
+		}
+		return nil, true
+	}
 }
